@@ -5,7 +5,7 @@ from lib import *
 
 BUILTIN_RULES_USED = ["no-debugger", "eqeqeq", "no-empty", "ban-unused-ignore", "ban-unknown-rule-code"]
 KNOWN_NOT_ENABLED = ["no-var", "no-explicit-any", "prefer-const"]
-UNKNOWN = ["foo", "no-such-rule", "x1", "é-rule", "no_debugger"]
+UNKNOWN = ["foo", "no-such-rule", "x1", "é-rule", "no_debugger", "No-Debugger", "NO-DEBUGGER", "Foo", "FOO"]
 EXT_CODES = ["ext/a", "ext-b", "zz"]
 WS_SEPS = [" ", "\t", ",", ", ", " ,", " , ", " ", "　", ",,", "  ", ",\t"]
 DEFAULT_FW = "deno-lint-ignore-file"
